@@ -446,7 +446,7 @@ func main() {
 		}
 		emit(c)
 	}
-	r := hx.NewRng(ctx.Seed)
+	r := hx.NewRng(ctx.Seed * 1000003) // hx seeds n and n+1 are the same stream shifted by one draw: spread them
 	for i := len(cs); i < ctx.N; i++ {
 		emit(gen(r.Fork(), ctx.Tier))
 	}
